@@ -29,6 +29,9 @@ pub fn set_local_cb(probe: u32, f: Rc<dyn Fn(&N)>) {
 pub fn clear_local_cbs() {
   LOCAL_CBS.with(|m| m.borrow_mut().clear());
 }
+pub fn fire_local_pub(probe: u32, n: &N) {
+  fire_local(probe, n)
+}
 fn fire_local(probe: u32, n: &N) {
   let f = LOCAL_CBS.with(|m| m.borrow().get(&probe).cloned());
   if let Some(f) = f {
